@@ -449,6 +449,16 @@ def run_property(plugin, argv):
         print("replay: property %s %s" % (plugin.PROP, "holds on this input" if ok else "FAILS on this input"))
         return 0 if ok else 1
 
+    # watchdog: should the harness ever stop making progress, leave every thread's Python stack in .work/ and end the process
+    # instead of hanging (a hung check decides nothing; the limits are an order of magnitude above the normal run times)
+    import faulthandler
+    limit = int(os.environ.get("VERIF_WATCHDOG_S", "2400" if a.tier == "quick" else "14400"))
+    try:
+        _wd = open(os.path.join(WORK, "watchdog-%s.txt" % plugin.PROP), "w")
+        faulthandler.dump_traceback_later(limit, exit=True, file=_wd)
+    except Exception:
+        pass
+
     # 1. translator
     from tools.translate import run as trun
     with Lock("coq"):
